@@ -96,6 +96,13 @@ void init_once()
     const char* b = "<include href=\"inc_a.xml\"/>";
     write_file("inc_a.xml", a, strlen(a));
     write_file("inc_b.xml", b, strlen(b));
+    // fragments with several includes: a cycle closed by a non-first include, and a diamond
+    const char* c = "<include href=\"inc_ok.xml\"/><include href=\"inc_c.xml\"/>";
+    const char* d = "<include href=\"inc_e.xml\"/><include href=\"inc_e.xml\"/>";
+    const char* e = "<types><type name=\"incE\" primitiveType=\"int8\"/></types>";
+    write_file("inc_c.xml", c, strlen(c));
+    write_file("inc_d.xml", d, strlen(d));
+    write_file("inc_e.xml", e, strlen(e));
     g_capture_fd = memfd_create("stdout", 0);
     fflush(stdout);
     dup2(g_capture_fd, 1);
@@ -273,7 +280,7 @@ const char* kValues[] = {
     "{}", "{0}", "{:d}", "}{", "%s%n", "a b", "a\"b", "a\\", "'", "\\", "\xc3\xa9",
     "char", "int8", "uint8", "int16", "uint16", "int32", "uint32", "int64", "uint64", "float", "double",
     "constant", "optional", "required", "bigEndian", "littleEndian",
-    "in.xml", "inc_a.xml", "inc_b.xml", "inc_ok.xml", "inc_bad.xml", "nonexistent.xml", ".", "out",
+    "in.xml", "inc_a.xml", "inc_b.xml", "inc_c.xml", "inc_d.xml", "inc_e.xml", "inc_ok.xml", "inc_bad.xml", "nonexistent.xml", ".", "out",
     "messageHeader", "groupSizeEncoding", "varDataEncoding", "blockLength", "numInGroup", "templateId",
     "schemaId", "version", "length", "varData", "numGroups", "numVarDataFields",
     "int", "class", "std", "types", "messages", "schema", "detail", "sbepp", "_A", "a__b", "9a", "a-b"};
